@@ -98,7 +98,7 @@ CompletionOK == Accepting(Run(st, [i \in 1..Len(Completion(st)) |-> Canon(Comple
 \* tokens a lenient parser would resynchronise on)
 DeadStaysDead ==
   Len(hist) < MaxLen =>
-    \A c \in Kills : \A d \in {"RBRACK", "RBRACE", "QUOTE", "COMMA"} : Step(Step(st, Canon(c)), Canon(d)).mode = "dead"
+    \A c \in Kills : \A d \in {"RBRACK", "QUOTE"} : Step(Step(st, Canon(c)), Canon(d)).mode = "dead"
 
 \* accepted values are well formed: object keys distinct, indices first and ascending
 RECURSIVE WellFormed(_)
